@@ -2226,6 +2226,13 @@ func (s *Server) ServeConn(c net.Conn) error {
 	}
 	defer s.releaseConcurrency()
 
+	// TimeoutHandler needs concurrencyCh, which is otherwise only created by Serve.
+	s.mu.Lock()
+	if s.concurrencyCh == nil {
+		s.concurrencyCh = make(chan struct{}, s.getConcurrency())
+	}
+	s.mu.Unlock()
+
 	s.setState(c, StateNew)
 	s.open.Add(1)
 
